@@ -163,6 +163,24 @@ fn run_rs(full: &[u8], k: &str, trail: &str, mutation: &str, c07: bool, fails: &
             if r != format!("ok:{}", hex(full)) {
                 fails.push(("C07".into(), format!("read of a model file gave {r}")));
             }
+            // two models written one after the other into ONE stream and read back one after the other from ONE reader (a cursor,
+            // and a reader that hands out a few bytes at a time): each of them has to come back
+            let mut two = full.to_vec();
+            two.extend_from_slice(full);
+            let both = catch(|| {
+                let mut c = std::io::Cursor::new(&two[..]);
+                let a = Model::read(&mut c).map(|m| m.to_vec().unwrap_or_default());
+                let b = Model::read(&mut c).map(|m| m.to_vec().unwrap_or_default());
+                let mut f = FailingReader { data: &two, pos: 0, fail: false };
+                let a2 = Model::read(&mut f).map(|m| m.to_vec().unwrap_or_default());
+                let b2 = Model::read(&mut f).map(|m| m.to_vec().unwrap_or_default());
+                [a, b, a2, b2].iter().map(|x| match x { Ok(v) if v == full => "ok".to_string(), Ok(_) => "other-model".to_string(), Err(e) => format!("err:{}", kind(e)) }).collect::<Vec<_>>()
+            });
+            match both {
+                Ok(v) if v.iter().all(|x| x == "ok") => {}
+                Ok(v) => fails.push(("C07".into(), format!("two models written into one stream and read back from one reader (cursor: first, second; short reads: first, second) gave {v:?}"))),
+                Err(m) => fails.push(("C07".into(), format!("reading two models from one stream panicked: {m}"))),
+            }
         } else if trail.is_empty() && !mutated {
             // a proper prefix
             if !s.starts_with("err:") {
